@@ -25,11 +25,14 @@ ENC = {EI: [0xFB], DI: [0xF3], RETI: [0xD9], HALT: [0x76], STOP: [0x10, 0x00], N
        WIE: [0x12]}      # LD (DE),A with DE = 0xFFFF: IE := A
 HANDLERS = {"reti": [0xD9], "ret": [0xC9], "nop_reti": [0x00, 0xD9], "ei_ret": [0xFB, 0xC9], "di_halt": [0xF3, 0x76]}
 
+# STOP is a two-byte instruction whatever its second byte holds (0x00 by convention): the byte is skipped, never executed
+STOP_OPERANDS = [0x00, 0x00, 0x3C, 0x04, 0xFB, 0x76, 0xD9]
+
 def c08_scenario(sid, seq, ime, if0, ie0, breq, aie, handler, base=0x150, extra_steps=6):
     code = []
     reti_returns = []
-    for sym in seq:
-        code += ENC[sym]
+    for k, sym in enumerate(seq):
+        code += ENC[sym] if sym != STOP else [0x10, STOP_OPERANDS[(sid + k) % len(STOP_OPERANDS)]]
         if sym == RETI:
             reti_returns.append(base + len(code))
     code += [0x00, 0x00, 0x18, 0xFE]            # NOP NOP JR -2
@@ -427,6 +430,9 @@ def straddle_programs(rom_only=False):
                     sid += 1
     if rom_only:
         return out
+    # at the other region ends also the instructions that END a block but fall through: a conditional jump / call that is
+    # not taken (Z is set) and STOP -- the program counter wraps from the top of high RAM to 0x0000 after them as well
+    forms = forms + [("jp_nz_nn", [0xC2], 2), ("call_nz_nn", [0xC4], 2), ("jr_nz", [0x20], 1), ("stop", [0x10], 1)]
     for name, opc, noper in forms:
         for back in range(0, noper):
             for end in (0x7FFF, 0xCFFF, 0xDFFF, 0xFFFE):
@@ -438,7 +444,7 @@ def straddle_programs(rom_only=False):
                     ad = start + i
                     if ad < 0x8000: romchunks.append((ad, [byte]))      # bank 1 of a ROM-only cartridge
                     elif ad < 0xFF00 or ad >= 0xFF80: iw.append((ad & 0xFFFF, byte))
-                regs = cpu(pc=start, sp=0xDFF0, h=0xC8, l=0x00)
+                regs = cpu(pc=start, sp=0xDFF0, h=0xC8, l=0x00, f=0x80)
                 out.append(scenario(sid, romchunks, regs, 1, cart=(0, 0, 2), init_writes=iw, romfill=0x00))
                 sid += 1
     return out
@@ -498,6 +504,33 @@ def cache_history_scenario(sid, steps, cart, bankreg=0x2000, bankmap=(1, 2, 3)):
         chunks.append((phys + 0x3FF0, [b]))
     nsteps = 3 + sum(1 if x < 3 else (2 if x == 3 or x == 4 else (4 if x == 5 else 3)) for x in steps) + 2
     return scenario(sid, chunks, cpu(pc=0x100, sp=0xFFFE), nsteps, mode="block", cart=cart)
+
+def mbc1_mode_scenarios(rng, n, start_id=6200000):
+    """C03 on a 128-bank MBC1: histories over the three banking registers (low five bits, upper two bits, mode) and
+    calls of a block in the fixed window and of two blocks in the switchable window; every 16 KiB of the image holds
+    its own copies of the three blocks, loading its own number."""
+    out = []
+    for i in range(n):
+        a = Asm(0x150)
+        a.emit(0x31); a.word(0xDFF0)
+        nsteps = 3
+        for _ in range(rng.randint(4, 14)):
+            k = rng.randrange(6)
+            if k == 0:   a.emit(0x3E, rng.choice([0, 1, 2, 0x1F, 0x20, 0x21]), 0xEA); a.word(0x2000 + rng.choice([0, 0x1FFF])); nsteps += 0
+            elif k == 1: a.emit(0x3E, rng.randrange(4), 0xEA); a.word(0x4000 + rng.choice([0, 0x1FFF]))
+            elif k == 2: a.emit(0x3E, rng.randrange(2), 0xEA); a.word(0x6000 + rng.choice([0, 0x1FFF]))
+            elif k == 3: a.emit(0xCD); a.word(LO_BLOCK); nsteps += 2
+            else:        a.emit(0xCD); a.word(HI_BLOCKS[k - 4]); nsteps += 2
+        a.label("END"); a.jr(0x18, "END")
+        chunks = [(0x100, [0x00, 0xC3, 0x50, 0x01]), (a.org, a.resolve())]
+        for b in range(128):
+            chunks.append((b * 0x4000 + LO_BLOCK, [0x3E, b, 0x0E, 0xE0, 0xC9]))
+            if b:
+                chunks.append((b * 0x4000 + (HI_BLOCKS[0] - 0x4000), [0x3E, b, 0x0E, 0, 0xC9]))
+                chunks.append((b * 0x4000 + (HI_BLOCKS[1] - 0x4000), [0x3E, b, 0x0E, 1, 0xC9]))
+        out.append(scenario(start_id + i, chunks, cpu(pc=0x100, sp=0xFFFE), nsteps + 4, mode="block", cart=(1, 6, 0)))
+    return out
+
 
 def cache_events(trace_lines):
     """Projection of a recorded jit run to the events of the CodeCache model (no guessing: bank writes are
@@ -776,6 +809,44 @@ def dma_machine_programs(rng):
                 chunks = [(0x40, [0xD9]), (0x50, [0xD9]), (0x100, [0x00, 0xC3, 0x50, 0x01]), (a.org, a.resolve())]
                 out.append(scenario(sid, chunks, cpu(**BOOT), 260, cart=(1, 2, 2), romfill=0x00))
                 sid += 1
+    return out
+
+
+def boundary_fallthrough_programs(rng, n=24):
+    """C04: straight-line code that runs from the fixed bank into 0x4000 without a jump (ROM-only cartridges, so that
+    C03's known straddling-block finding stays out of it): one block for the interpreter, and it must be one step for
+    the recompiler as well."""
+    out = []
+    for i in range(n):
+        body = []
+        for _ in range(rng.randint(2, 10)): body += alu_op(rng)
+        tail = []
+        for _ in range(rng.randint(1, 6)): tail += alu_op(rng)
+        tail += rng.choice([[0x76], [0xC3, 0x50, 0x01], [0xC9], [0x18, 0xFE]])
+        # the last byte of `body` lands on 0x3FFF - skew: skew 0 = an instruction boundary exactly at 0x4000,
+        # skew 1 = the last instruction of the body straddles it when it has more than one byte
+        skew = rng.choice([0, 0, 1])
+        base = 0x4000 - len(body) + skew
+        a = Asm(0x150); a.emit(0x31, 0xF0, 0xDF); a.jp(0xC3, base)
+        out.append(scenario(2950000 + i, [(0x100, [0x00, 0xC3, 0x50, 0x01]), (a.org, a.resolve()), (base, body + tail)],
+                            cpu(pc=0x100, sp=0xFFFE), 6, mode="block", cart=(0, 0, 2), romfill=0x00))
+    return out
+
+
+def dma_long_block_programs():
+    """C09: an OAM DMA in flight while one block of several hundred machine cycles runs (the whole block's time must
+    reach the DMA engine as it reaches the timer and the LCD)."""
+    out = []
+    for i, (page, nops) in enumerate([(0xC0, 300), (0xC1, 255), (0x80, 256), (0xD0, 500), (0xC0, 100), (0xFE, 700), (0x00, 158)]):
+        a = Asm(0x150)
+        a.emit(0x3E, page, 0xE0, 0x46)
+        for _ in range(nops): a.emit(0x00)
+        a.emit(0x76); a.label("E"); a.jr(0x18, "E")
+        sc = scenario(9800000 + i, [(0x100, [0x00, 0xC3, 0x50, 0x01]), (a.org, a.resolve())], cpu(pc=0x100, sp=0xFFFE), 8,
+                      mode="block", cart=(0, 0, 2), romfill=0)
+        # machine cycles of the first two blocks: NOP ; JP  and  LD A,n ; LDH (n),A ; NOP x nops ; HALT
+        sc["expect_cpu"] = [5, 2 + 3 + nops + 1]
+        out.append(sc)
     return out
 
 
